@@ -50,6 +50,8 @@ pub fn gen(rng: &mut Rng, n: usize, out: &mut Vec<String>) {
         let z = if rng.chance(1, 2) { mag } else { mag.wrapping_neg() };
         out.push(format!("int {}", z));
     }
+    // every boundary between length forms, up to the 3/4-octet one at 16 MiB
+    for n in [0usize, 127, 128, 255, 256, 65535, 65536, 16777215, 16777216, 16777217] { out.push(format!("lenhdr {}", n)); }
     // encoder: trees with tag numbers up to 30 (parseable) and beyond (high-tag-number form, encode only)
     for i in 0..n / 3 {
         let d = 1 + rng.below(6) as usize; let t = rand_tree(rng, d, if i % 7 == 0 { 1 << 20 } else { 30 }, i % 11 == 0);
@@ -92,6 +94,27 @@ pub fn show_parse(b: &[u8]) -> String {
 
 pub fn run(lane: &str, args: &[&str]) -> (String, Option<String>) {
     match lane {
+        // a primitive OCTET STRING of n zero bytes: only the header is compared (id octet + length octets), the content by its length; the
+        // encoding is parsed back by lber and by the independent reader. Reaches the 3/4-octet length boundary (16 MiB) without a 32 MB case line
+        "lenhdr" => {
+            let n: usize = args[0].parse().unwrap();
+            let t = StructureTag { class: TagClass::Universal, id: 4, payload: PL::P(vec![0u8; n]) };
+            let r = guarded(move || { let mut buf = BytesMut::new(); lber::write::encode_into(&mut buf, t).map(|_| buf.to_vec()) });
+            match r {
+                Some(Ok(b)) => {
+                    let hdr = b.len() - n; let mut oracle = None;
+                    if b.len() < n || b[hdr..].iter().any(|x| *x != 0) { oracle = Some("content octets altered".to_string()); }
+                    let mut minimal = true;
+                    match ownber::read(&b, &mut minimal, 0) { Own::Ok(t3, used) if used == b.len() && matches!(&t3.payload, PL::P(v) if v.len() == n) => { if !minimal { oracle = Some("encoder emitted a non-minimal length".to_string()); } } _ => oracle = Some("independent reader does not read back the element".to_string()) }
+                    let b2 = b.clone();
+                    match guarded(move || lber::parse::parse_tag(&b2).map(|(rest, t)| (rest.len(), match t.payload { PL::P(v) => v.len() as i64, _ => -1 })).map_err(|_| ())) {
+                        Some(Ok((0, l))) if l == n as i64 => {} other => { oracle.get_or_insert(format!("lber does not parse its own encoding back: {:?}", other)); } }
+                    (format!("{} total={}", hex(&b[..hdr]), b.len()), oracle)
+                }
+                Some(Err(_)) => ("encode-error".into(), Some("encoder failed".into())),
+                None => ("panic".into(), Some("encoder panicked".into())),
+            }
+        }
         "enc" => {
             let t = parse_tree(args[0]);
             let t2 = t.clone();
